@@ -986,7 +986,7 @@ fn systematic(em: &mut Emitter, thorough: bool) {
         idx += 1;
     };
     for (bi, (boundary, truth)) in bases.iter().enumerate() {
-        if !thorough && bi >= 2 {
+        if !thorough && bi >= 1 {
             break;
         }
         let cut1_only = !thorough && bi >= 1;
@@ -1009,8 +1009,8 @@ fn systematic(em: &mut Emitter, thorough: bool) {
             if cut1_only {
                 continue;
             }
-            for w in 1..=(if thorough { 6 } else { 4 }) {
-                if i + w < n && (thorough || w == 1 || w == 4) {
+            for w in 1..=4 {
+                if i + w < n && (thorough || w == 4) {
                     emit(em, "cut2", boundary, truth, "valid", vec![Ev::Chunk(full[..i].to_vec()), Ev::Pending, Ev::Chunk(full[i..i + w].to_vec()), Ev::Pending, Ev::Chunk(full[i + w..].to_vec())], None);
                 }
             }
@@ -1048,7 +1048,7 @@ fn main() {
             systematic(&mut em, args.thorough());
         }
         let mut rng = Rng::new(args.seed);
-        let n = args.n.unwrap_or(if args.thorough() { 12_000 } else { 500 });
+        let n = args.n.unwrap_or(if args.thorough() { 5_000 } else { 400 });
         for i in 0..n {
             let mut r = rng.fork();
             let c = gen_case(&mut r, args.thorough());
